@@ -7,8 +7,11 @@ the empty string, `~` is Python `None`).  Lines:
   reset
       forget the exports and the history                                  -> ok
   export <path> <nclasses> {<hasIfaces 0|1> <nifaces> {<name> <nmethods> {<name> <sigIn> <sigOut> <nret>}}
-                            <nattrs> {<attr> <funcId> <0 | 1 iface member> <wantsCaller 0|1>}}
-      `exports[path] = obj` (class chain in `__mro__` order)                -> ok
+                            <nattrs> {<attr> <funcId> <0 | 1 iface member> <nparams> {<param>}}}
+      `exports[path] = obj` before the history starts (class chain in `__mro__` order; <param> =
+      names of the positional parameters, self included)                  -> ok
+  opexport <path> <obj>      operation of the history: exportObject      -> none
+  opunexport <path>          operation of the history: unexportObject    -> none
   call <path> <iface|~> <member> <sig|~> <sender|~> <serial> <expectReply 0|1> <nargs>
        <names> <managedEnc> <outcome>            (<managedEnc> := <enc>: does building the
                                                   GetManagedObjects reply for <path> raise)
@@ -94,8 +97,9 @@ def attr : P (Str × Func) := do
     let i ← str
     let m ← str
     pure (some (i, m))
-  let w ← bool
-  pure (a, { id, deco, wantsCaller := w })
+  let n ← nat
+  let ps ← rep str n
+  pure (a, { id, deco, params := ps })
 
 def cls : P Class := do
   let h ← bool
@@ -155,11 +159,10 @@ def mkEnv (nm : List (Str × Bool)) (r : Option Result) (managed : Option Exc :=
         else r.encFlat
     ofSeq := fun _ => seqTok
     validErr := fun n => (dictGet nm n).getD false
-    textFix := fixRepaired }
+    textFix := fixSource }
 
 structure St where
-  ex : Exports := []
-  st : State := State.init
+  st : State := State.init []
 
 def showOpt : Option Str → String
   | none => "~"
@@ -227,24 +230,34 @@ def finish {α : Type} (p : P α) (ts : List String) : Option α :=
   | some (a, []) => some a
   | _ => none
 
+def quietEnv : Env Nat := mkEnv [] none
+
 def stepLine (s : St) (line : String) : St × String :=
   match Driver.words line with
   | ["reset"] => ({}, "ok")
   | "export" :: ts =>
     match finish parseExport ts with
-    | some (path, o) => ({ s with ex := dictSet s.ex path o }, "ok")
+    | some (path, o) => ({ st := { s.st with exports := dictSet s.st.exports path o } }, "ok")
+    | none => (s, "parse-error")
+  | "opexport" :: ts =>
+    match finish parseExport ts with
+    | some (path, o) => ({ st := (step quietEnv s.st (.exportObj path o)).1 }, "none")
+    | none => (s, "parse-error")
+  | ["opunexport", p] =>
+    match Driver.hexToChars? p with
+    | some path => ({ st := (step quietEnv s.st (.unexportObj path)).1 }, "none")
     | none => (s, "parse-error")
   | "call" :: ts =>
     match finish parseCall ts with
     | some (env, op) =>
-      let r := step env s.ex s.st op
-      ({ s with st := r.1 }, showEvents r.2)
+      let r := step env s.st op
+      ({ st := r.1 }, showEvents r.2)
     | none => (s, "parse-error")
   | "resolve" :: ts =>
     match finish parseResolve ts with
     | some (env, op) =>
-      let r := step env s.ex s.st op
-      ({ s with st := r.1 }, showEvents r.2)
+      let r := step env s.st op
+      ({ st := r.1 }, showEvents r.2)
     | none => (s, "parse-error")
   | _ => (s, "parse-error")
 
